@@ -346,6 +346,30 @@ Definition wf_msg (m : msg) : bool :=
   | WhatIsNetNum => true
   end.
 
+(* ---- decode, then encode the SAME object again: a plain re-encode, the router's forward
+   (netservice.py:614-633,665: drop at hop count 0, hop count - 1, SADR filled in when absent, DADR
+   removed on the last leg), and a message object decoded through the registry and encoded again.
+   encode does not read the stored npduControl, so in the model the decoded control octet plays no part *)
+Record fwd : Type := mkFwd { f_sadr : option addr; f_strip : bool }.
+Definition apply_fwd (f : fwd) (h : npci) : res npci :=
+  do hp <- match hop h with
+           | None => Err TypeErr                          (* None -= 1 *)
+           | Some x => Ok (Some (x - 1))                  (* x >= 1: hop count 0 is dropped before *)
+           end;
+  Ok (mkNpci (ver h) (er h) (prio h) (if f_strip f then None else dadr h)
+             (match sadr h with Some a => Some a | None => f_sadr f end) hp (nmsg h) (vendor h)).
+Definition reenc (bs : list N) : res (list N) :=
+  do (ch, r) <- dec_npci bs; enc_npdu (snd ch) r.
+(* None = not forwarded (hop count exhausted) *)
+Definition reenc_fwd (f : fwd) (bs : list N) : res (option (list N)) :=
+  do (ch, r) <- dec_npci bs;
+  match hop (snd ch) with
+  | Some 0 => Ok None
+  | _ => do h' <- apply_fwd f (snd ch); do o <- enc_npdu h' r; Ok (Some o)
+  end.
+Definition reenc_frame (bs : list N) : res (list N) :=
+  do x <- dec_frame bs; let '(_, h, m, _) := x in enc_frame h m.
+
 (* ---- a process decodes many messages one after the other: in the model that is a map of the
    decoders over the inputs — there is no state for an earlier decode to leave behind *)
 Inductive op : Type :=
@@ -407,3 +431,5 @@ Definition canon_op_result (r : op_result) : list Z :=
 (* each result is prefixed by its length so that the concatenation is unambiguous *)
 Definition canon_history (rs : list op_result) : list Z :=
   zlen rs :: flat_map (fun r => let c := canon_op_result r in zlen c :: c) rs.
+Definition canon_optbytes (o : option (list N)) : list Z :=
+  match o with None => [0%Z] | Some l => 1%Z :: zs l end.
